@@ -1180,7 +1180,7 @@ func genCase(rng *hx.Rng) []string {
 	tag := 10
 	maxDue := 1
 	var toRelease []int
-	var rawTags []int
+	var rawTags, trackedTags []int
 	shut := false
 	useArm := M == 0 && rng.Chance(1, 6)
 	armedOne := false
@@ -1268,6 +1268,7 @@ func genCase(rng *hx.Rng) []string {
 			}
 			after := rng.Chance(1, 4)
 			due, k := genTask(true, after)
+			trackedTags = append(trackedTags, mytag)
 			if due > clock && after {
 				// TaskExecutor.ExecuteAfter with the delay that gives the same due clock
 				lines = append(lines, fmt.Sprintf("%d execafter %d %d %d %s", clock, id, mytag, due-clock, k))
@@ -1295,8 +1296,13 @@ func genCase(rng *hx.Rng) []string {
 			tag++
 		case x < 75:
 			lines = append(lines, fmt.Sprintf("%d cancel %d", clock, rng.Range(1, 3)))
-		case x < 80 && len(rawTags) > 0:
-			lines = append(lines, fmt.Sprintf("%d ecancel %d", clock, hx.Pick(rng, rawTags)))
+		case x < 80 && len(rawTags)+len(trackedTags) > 0:
+			// the handle's own Cancel(): of a raw task, or (1 in 3) of a TaskExecutor task, bypassing the identifier map
+			if len(rawTags) == 0 || (len(trackedTags) > 0 && rng.Chance(1, 3)) {
+				lines = append(lines, fmt.Sprintf("%d ecancel %d", clock, hx.Pick(rng, trackedTags)))
+			} else {
+				lines = append(lines, fmt.Sprintf("%d ecancel %d", clock, hx.Pick(rng, rawTags)))
+			}
 		case x < 86 && len(toRelease) > 0:
 			j := rng.Intn(len(toRelease))
 			lines = append(lines, fmt.Sprintf("%d release %d", clock, toRelease[j]))
@@ -1405,6 +1411,12 @@ func corpus() [][]string {
 			"12 exec 4 15 9 plain", "14 execafter 3 16 5 plain", "16 exec 5 17 21 plain", "18 release 10", "20 release 11", "end 26"},
 		// ... while a genuine overflow still drops the last slot
 		[]string{"new 1 2", "0 exec 1 10 1 block", "4 exec 2 11 9 plain", "6 exec 3 12 11 plain", "8 exec 4 13 7 plain", "10 exec 4 14 13 plain", "12 cancel 2", "14 release 10", "end 20"})
+	// ScheduledTask.Cancel() on the handle of a TaskExecutor task (bypassing the identifier map): the task never runs,
+	// Cancel(id) afterwards returns false (nothing pending), a later ExecuteAt(id) schedules normally
+	c = append(c,
+		[]string{"new 1 0", "0 exec 1 10 9 plain", "2 ecancel 10", "4 cancel 1", "6 exec 1 11 11 plain", "8 cancel 1", "end 14"},
+		[]string{"new 2 2", "0 exec 1 10 1 block", "2 exec 2 11 9 plain", "4 exec 3 12 11 plain", "6 ecancel 11", "8 exec 4 13 13 plain", "10 exec 2 14 7 plain", "12 release 10", "end 18"},
+		[]string{"new 1 0", "0 exec 1 10 5 block", "8 ecancel 10", "10 exec 1 11 13 plain", "12 release 10", "end 16"})
 	// every Shutdown flag combination on both types, with a tracked and a raw task pending (one held by the worker, one
 	// in the heap), a Cancel(id) after the call and a second Shutdown: with DontWaitForShutdown and without
 	// CancelPendingElements the pending tasks still run (at their time, or at once with IgnorePendingTimeouts) and
@@ -1780,8 +1792,8 @@ func runAddBurst(r *rec, sub uint64, workers, k int, sameDue bool, reps int) {
 	var evs []string
 	x := 0
 	for rep := 0; rep < reps; rep++ {
-		te := timed.NewTaskExecutor[int](workers)
-		time.Sleep(2 * time.Millisecond) // all workers wait on the empty queue
+		te := struct{ Executor *timed.Executor }{timed.NewExecutor(workers)} // the plain Executor, constructed directly
+		time.Sleep(2 * time.Millisecond)                                    // all workers wait on the empty queue
 		base := time.Now()
 		us := func(t time.Time) int64 { return max(t.Sub(base).Microseconds(), 0) }
 		release := make(chan struct{})
@@ -1847,7 +1859,7 @@ func runAddBurst(r *rec, sub uint64, workers, k int, sameDue bool, reps int) {
 		}
 		close(release)
 		done := make(chan struct{})
-		go func() { te.Shutdown(); close(done) }()
+		go func() { te.Executor.Shutdown(); close(done) }()
 		select {
 		case <-done:
 		case <-time.After(2 * time.Second):
@@ -2736,6 +2748,10 @@ func execDescriptor(j job, unit time.Duration) *rec {
 		runCancelRace(r, j.Sub, at(1), at(2))
 	case len(f) == 2 && f[0] == "qseqs":
 		runQSeqs(r, j.Sub, at(1))
+	case len(f) == 2 && f[0] == "gheaps":
+		runGHeaps(r, j.Sub, at(1))
+	case len(f) >= 1 && (f[0] == "gheap" || f[0] == "hkcmp"):
+		runGHeapLine(r, j.Desc)
 	case len(f) >= 2 && f[0] == "qseq":
 		runQSeqLine(r, j.Desc)
 	case len(f) == 2 && f[0] == "qpanic":
@@ -2794,7 +2810,7 @@ func main() {
 		j := job{Sub: r.Seed, Desc: "seq " + strings.Join(keep, " | ")}
 		if len(keep) > 0 {
 			switch strings.Fields(keep[0])[0] {
-			case "stress", "burst", "addrace", "addburst", "sdrace", "cancelrace", "qseq", "qsess", "qpanic":
+			case "stress", "burst", "addrace", "addburst", "sdrace", "cancelrace", "qseq", "qsess", "qpanic", "gheap", "hkcmp":
 				j.Desc = keep[0]
 			}
 		}
@@ -2852,6 +2868,7 @@ func main() {
 	}
 	stress("qpanic %d", 2*r.Scale)
 	stress("qseqs %d", 150*r.Scale)
+	stress("gheaps %d", 400*r.Scale)
 	for _, cfg := range []struct {
 		p, c, m int
 		fl      string
